@@ -1,3 +1,5 @@
+import Driver.C05
+import Driver.C04
 import Driver.C19
 import Driver.C20
 import Driver.C10
@@ -23,4 +25,6 @@ def main (args : List String) : IO UInt32 := do
   | ["C10"] => Driver.C10.main; return 0
   | ["C20"] => Driver.C20.main; return 0
   | ["C19"] => Driver.C19.main; return 0
+  | ["C04"] => Driver.C04.main; return 0
+  | ["C05"] => Driver.C05.main; return 0
   | _ => IO.eprintln "usage: stirdriver <C01..C20>"; return 2
